@@ -818,7 +818,30 @@ impl Run {
         let ctx = pool[self.rng.gen_range(0..pool.len())].clone();
         let kind = self.rng.gen_range(0..10);
         let head = kind < 5;
-        let lim: u64 = if kind >= 8 { self.rng.gen_range(1..5) } else { 0 };
+        // a limit inside the history, or just beyond it (so that live frames - arriving after some pulses - count)
+        // the context's history as a plain read sees it right now
+        let mut hist: u64 = 0;
+        if kind >= 8 {
+            for _ in 0..4 {
+                self.op_read("sync", Some(ctx.as_str()), None, None);
+                if let Some(e) = self.events.last() {
+                    if e["e"] == "read" && e["tail"] == json!(false) && e["status"] == json!(200) {
+                        hist = e["res"].as_array().map(|a| a.len()).unwrap_or(0) as u64;
+                        break;
+                    }
+                }
+            }
+        }
+        let lim: u64 = if kind >= 8 {
+            if self.rng.gen_bool(0.5) {
+                self.rng.gen_range(1..5)
+            } else {
+                // the context's history as a plain read sees it right now, plus one or two of the frames appended below
+                hist + self.rng.gen_range(1..3)
+            }
+        } else {
+            0
+        };
         let topic = ["tA", "tAB", "tB"][self.rng.gen_range(0..3)];
         let topic_s = self.fam.topics.get(topic).cloned().unwrap();
         let target = if head {
@@ -833,8 +856,11 @@ impl Run {
         if Self::failed(&r) || r["status"] != json!(0) {
             return;
         }
-        // make sure the subscription exists before appending: the response head arrives first
-        std::thread::sleep(std::time::Duration::from_millis(30));
+        // (`follow_open` returns once the response head is there, i.e. the subscription exists.) With a heartbeat,
+        // let some pulses pass before the live frames - this only widens what is exercised, nothing is concluded from it
+        if lim > 0 {
+            std::thread::sleep(std::time::Duration::from_millis(30));
+        }
         let before = self.events.len();
         let forever = json!({"k": "forever", "n": 0});
         let eph = json!({"k": "eph", "n": 0});
@@ -844,12 +870,26 @@ impl Run {
             self.op_append(c, t, ttl, "none", "none");
         }
         self.op_append(&ctx, topic, &forever, "m1", "b1");
+        if lim > 0 {
+            self.op_append(&ctx, topic, &forever, "none", "none");
+        }
         let appended: Vec<Value> = self.events[before..]
             .iter()
             .filter(|e| e["e"] == "append" && e["ok"] == json!(true))
             .map(|e| e["f"].clone())
             .collect();
-        let r = self.call(json!({"op": "follow_collect", "wait_ms": 150}));
+        // what has to arrive: the frames appended into the stream's scope; with a limit, that many data frames
+        let in_scope: Vec<&Value> = appended
+            .iter()
+            .filter(|f| f["ctx"] == idref(&ctx) && (!head || f["topic"] == json!(topic)))
+            .collect();
+        let (want_ids, want_count): (Vec<String>, u64) = if lim > 0 {
+            (vec![], lim.min(hist + in_scope.len() as u64))
+        } else {
+            (in_scope.iter().filter_map(|f| f["id"].as_str().and_then(|s| s.strip_prefix("ID:")).map(String::from)).collect(), 0)
+        };
+        let r = self.call(json!({"op": "follow_collect", "wait_ms": 150, "want_ids": want_ids, "want_count": want_count,
+            "cap_ms": 10_000}));
         if Self::failed(&r) {
             return;
         }
